@@ -9,7 +9,8 @@ EXPLANATION = ("C13: (R1) both interning tables have the entry/or_insert(count)/
                "combinations); (R3) serialisation writes raw names + root; (R4) the builder hands file, tokens, names, raw "
                "sources, contents, root, debug id and ignore list to the map on every path; (R5) contents vectors are grown "
                "before the indexed write and add_with_id stores the interned ids."
-               " (R7) SourceMapBuilder::new and (R7b) SourceMap::new store their arguments whole.")
+               " (R7) SourceMapBuilder::new and (R7b) SourceMap::new store their arguments whole."
+               " (R8) tokens are sorted after the last write; (R9) the decoded arrays reach the map whole on every Ok path.")
 NOT_DECIDED = "full model equivalence over arbitrary call sequences (value-level)."
 
 
